@@ -128,7 +128,7 @@ HexahedralMeshTopologyKernel::add_cell(std::vector<HalfFaceHandle> _halffaces, b
 #ifndef NDEBUG
             std::cerr << "The current halfface is invalid!" << std::endl;
 #endif
-            continue;
+            return TopologyKernel::InvalidCellHandle;
         }
         ordered_halffaces[orderTop[idx]] = ahfh;
         ++idx;
